@@ -1,5 +1,6 @@
-(* The witnesses of consistency_exact_refuted (and the second known inexact acceptance) are REJECTED
-   by the repaired verifier of Merkle/VerifyFixed.v; evaluated with the executable SHA-256. *)
+(* The witnesses of consistency_exact_refuted (and the second formerly known inexact acceptance) were
+   accepted by the PRE-FIX verifier `verify_consistency` and are REJECTED by the current one
+   (`verify_consistency_fixed`, /repo 05f2785); evaluated with the executable SHA-256. *)
 From V Require Import Merkle.Verify Merkle.VerifyFixed Merkle.Sha256 Merkle.Refuted.
 
 Example fixed_rejects_witness_1_2 :
